@@ -110,6 +110,22 @@ Theorem C12_floor_batches_refuted :
 Proof. exact floor_batches_refuted. Qed.
 Print Assumptions C12_floor_batches_refuted.
 
+(* The legs of a run resumed any number of times never replay each other's random stream, for EVERY resume path
+   accepted by seeding_ok (it does not seed the generators): with processes whose generator streams differ
+   (OS entropy) all draws of all legs are pairwise distinct stream positions. *)
+Theorem C12_legs_do_not_replay :
+  forall effs, seeding_ok effs = true ->
+  forall (seed : nat) (legs : list (nat * nat)), NoDup (map fst legs) -> NoDup (run_draws effs seed legs).
+Proof. exact seeding_sound. Qed.
+Print Assumptions C12_legs_do_not_replay.
+
+(* refuted variant: seeding the generators from the pickled seed on resume makes every leg draw what the
+   previous one drew (duplicate live / nested points in the uninformed phase) *)
+Theorem C12_reseeding_refuted :
+  exists legs, NoDup (map fst legs) /\ ~ NoDup (run_draws [SReseed] 1 legs).
+Proof. exact reseeding_refuted. Qed.
+Print Assumptions C12_reseeding_refuted.
+
 (* non-vacuity: a result-bearing field in the exclude set is rejected, with the field named;
    a concrete object round-trips; the counter chain computes *)
 Example C12_nonvacuous :
